@@ -69,6 +69,23 @@ def adversarial(rng, prog, opts=None):
                     nm = rng.choice(free)
             used[d["pkg"]].add(nm)
             d["name"] = nm
+    # the local that holds a provider's result is named after its type: let the types that cleanup-returning (and
+    # error-returning) providers construct be called like the cleanup / error variables Wire invents next to them
+    if rng.random() < opts.get("p_cleanup_types", 0.35):
+        for u in prog.units:
+            if getattr(u, "shadow", False):
+                continue
+            n = 0
+            for it in u.items:
+                if it["kind"] == "func" and (it.get("cleanup") or it.get("err")) and it["outs"][0][0] in ("v", "p"):
+                    st = u.structs[it["outs"][0][1]]
+                    base = "Cleanup" if it.get("cleanup") else "Err"
+                    nm = base + ("" if n == 0 else str(n + 1))
+                    if nm not in used[st["pkg"]]:
+                        used[st["pkg"]].discard(st["name"])
+                        used[st["pkg"]].add(nm)
+                        st["name"] = nm
+                    n += 1
     # provider functions are numbered per package: two packages (possibly with the same package name)
     # declare functions with the same name
     count = {p: 0 for p in prog.pkgs}
